@@ -1136,7 +1136,15 @@ func encodeFlateLZW(w io.WriteCloser, p FlatePredictor, colors, bpc, columns int
 		}
 		return w.Close()
 	}
-	zw = &withClose{zw, close}
+	// After Close the compressor belongs to the pool (and soon to another
+	// encoder): nothing may be written through this encoder any more.
+	write := writeFunc(func(p []byte) (int, error) {
+		if closed {
+			return 0, errEncoderClosed
+		}
+		return originalZw.Write(p)
+	})
+	zw = &withClose{write, close}
 
 	return predict.NewWriter(zw, predictParams(p, colors, bpc, columns))
 }
@@ -1194,6 +1202,12 @@ type withClose struct {
 	io.Writer
 	close func() error
 }
+
+type writeFunc func(p []byte) (int, error)
+
+func (f writeFunc) Write(p []byte) (int, error) { return f(p) }
+
+var errEncoderClosed = errors.New("write to a closed encoder")
 
 func (w *withClose) Close() error {
 	return w.close()
